@@ -16,10 +16,18 @@ def demo_targets():
     tg = []
     for m in re.finditer(r"^\+\+\+ b/(\S+)", d, flags=re.M):
         f = m.group(1)
+        base = os.path.basename(f)[:-3] if f.endswith(".rs") else ""
         if f.startswith("tests/") and f.endswith(".rs"):
-            tg.append(["--test", os.path.basename(f)[:-3]])
-        elif f.startswith("src/") and "seed" in os.path.basename(f):
-            tg.append(["--lib", os.path.basename(f)[:-3]])
+            tg.append(["--test", base])
+        elif re.match(r"^(ethercrab-wire(-derive)?)/tests/.*\.rs$", f):
+            tg.append(["-p", f.split("/")[0], "--test", base])
+        elif f.startswith("src/") and "seed" in base:
+            tg.append(["--lib", base])
+    # test modules appended to existing source files: `mod seed_xyz {` in added lines
+    for m in re.finditer(r"^\+\s*(?:pub(?:\(crate\))?\s+)?mod (seed\w+)", d, flags=re.M):
+        t = ["--lib", m.group(1)]
+        if t not in tg:
+            tg.append(t)
     return tg
 DEMO_TESTS = set()
 def run_demo():
